@@ -99,6 +99,11 @@ def gen_matrix(rng, exact: bool, closed: bool = True, max_pts: int = 40) -> list
     step = [0.0, 0.5, -0.25, 1.0, 0.125, -2.0] if exact else [0.0, 0.731, -0.219, 1.003, 0.01, -2.17]
     feeds = [0.5, 5.0, 20.0, 1.0, 2.5] if exact else [0.5, 5.0, 20.0, 1.3, 0.1, 33.3]
     x, y, z = (rng.choice([-2.0, 0.0, 1.5]), rng.choice([0.0, 0.25, -1.0]), rng.choice([0.0, 0.5, -0.125]))
+    if not exact and rng.random() < 0.15:
+        # far from the origin, with steps of a fraction of a micrometre: two rows can be "close" in relative terms and still be
+        # different points at the printed precision
+        x, y = rng.choice([40.0, 100.0, -75.0]), rng.choice([20.0, -60.0])
+        step = [0.0, 0.0002, -0.00005, 0.00031, 0.001, -0.0004]
     s = 0.0
     rows = [[x, y, z, rng.choice(feeds), 0.0]]
     for i in range(1, n):
